@@ -37,6 +37,8 @@ def edge_trees():
         _t("E_if", Cfg("X", B, "x"), If("X", [Cfg("Y", B, "y", defaults=[("y", None)]), Cfg("YI", I, "yi", defaults=[("3", None)])])),
         _t("E_menu_dep", Cfg("X", B, "x"), Menu("m", depends=["X"], children=[Cfg("Y", S, "y", defaults=[('"d"', None)]), Cfg("YB", B, "yb")])),
         _t("E_menu_vis", Cfg("X", B, "x"), Menu("m", visible_if=["X"], children=[Cfg("Y", B, "y", defaults=[("y", None)]), Cfg("YI", I, "yi", defaults=[("3", None)])])),
+        _t("E_visif_implicit", Cfg("X", B, "x"), Menu("m", visible_if=["X"], children=[Cfg("P", B, "p", defaults=[("y", None)]), If("P", [Cfg("Y", I, "y", defaults=[("3", None)]), Cfg("YS", S, "ys", defaults=[('"stock"', None)])]), Cfg("Q", B, "q", menuconfig=True, defaults=[("y", None)]), Menu("sub", depends=["Q"], children=[Cfg("Z", B, "z")])])),
+        _t("E_sync_empty", Cfg("EN", B, "en", defaults=[("y", None)]), Cfg("S", S, "s", depends=["EN"]), Cfg("I", I, "i", depends=["EN"]), Cfg("H", H, "h", depends=["EN"], defaults=[("0x1", "S = \"p\"")])),
         _t("E_choice_default", Cfg("X", B, "x"), Choice("CH", "ch", defaults=[("M2", "X")], children=[Cfg("M1", B, "m1"), Cfg("M2", B, "m2")]), Cfg("Y", B, None, defaults=[("y", "M2")])),
         _t("E_choice_dep", Cfg("X", B, "x"), Choice("CH", "ch", depends=["X"], children=[Cfg("M1", B, "m1"), Cfg("M2", B, "m2")]), Cfg("Y", I, "y", defaults=[("1", "M1"), ("2", "M2"), ("0", None)])),
         _t("E_choice_member_dep", Cfg("X", B, "x"), Choice("CH", "ch", children=[Cfg("M1", B, "m1", depends=["X"]), Cfg("M2", B, "m2"), Cfg("M3", B, "m3", prompt_if="!X")]), Cfg("Y", B, "y", depends=["M1 || M3"])),
